@@ -1,4 +1,6 @@
 import VProps.C06
+import VProps.C06Ring
+import VProps.C12
 #print axioms V.C06.columns_eq_spec
 #print axioms V.C06.required_eq_spec
 #print axioms V.C06.verify_iff
@@ -10,3 +12,26 @@ import VProps.C06
 #print axioms V.C06.no_panic
 #print axioms V.C06.pseudo_sender_required
 #print axioms V.C06.pseudo_mapping_signers_valid
+#print axioms V.C06Ring.verify_with_keyring_sound
+#print axioms V.C06Ring.verify_with_keyring_one_bad
+#print axioms V.C06Ring.verify_with_keyring_complete
+#print axioms V.C12.consts_match_model
+#print axioms V.C12.wasValidAt_source
+#print axioms V.C12.strictValidity_source
+#print axioms V.C12.noStrictValidity_source
+#print axioms V.C12.timestamp_source
+#print axioms V.C12.asTimestamp_source
+#print axioms V.C12.verifyJSONs_source
+#print axioms V.C12.publicKeyRequests_source
+#print axioms V.C12.checkUsingKeys_source
+#print axioms V.C12.isAlgorithmSupported_source
+#print axioms V.C12.verifyJSON_length_guard
+#print axioms V.C12.results_shape
+#print axioms V.C12.results_index
+#print axioms V.C12.success_sound
+#print axioms V.C12.success_sound_spec
+#print axioms V.C12.wasValidAt_spec
+#print axioms V.C12.success_complete
+#print axioms V.C12.fetch_minimal
+#print axioms V.C12.stores_fetched
+#print axioms V.C12.stale_db_key_replaced
